@@ -20,6 +20,7 @@ func init() {
 				{H: sym.Harness{Pkg: "linear", Func: "VerifHarness_C02_Accuracy", Cfg: sym.Config{Float: sym.FloatRErr, OneShotAsserts: true}, TimeoutMs: 120000}, ExpectReach: []string{"measured"}},
 				{H: sym.Harness{Pkg: "linear", Func: "VerifHarness_C02_NegControl", Cfg: fp}, NegControl: true},
 				{H: sym.Harness{Pkg: "displayp3", Func: "VerifHarness_C02_Wiring", Cfg: wiring, Workers: 1, TimeoutMs: 120000}, ExpectReach: []string{"wired"}, SamplePaths: 1},
+				{H: sym.Harness{Pkg: "displayp3", Func: "VerifHarness_C02_Independent", Cfg: wiring, Workers: 6, TimeoutMs: 120000}, ExpectReach: []string{"independent"}, SamplePaths: 1},
 			}
 			for _, p := range curvePkgs {
 				runs = append(runs, &Run{H: sym.Harness{Pkg: p, Func: "VerifHarness_C02_Wiring", Cfg: wiring, Workers: 1, TimeoutMs: 120000}, ExpectReach: []string{"wired"}, SamplePaths: 1})
